@@ -1,5 +1,6 @@
 import RbV.Lemmas.C15b
 import RbV.Lemmas.C15c
+import RbV.Lemmas.C15Gen
 /-!
 # C15 — log-space probability arithmetic agrees with linear-space arithmetic (real-number theorems, PARTIAL)
 
@@ -160,11 +161,42 @@ theorem checked_rejects_iff (p : ℝ) : checked p = none ↔ p < 0 ∨ 1 < p := 
   · rename_i h; simp only [reduceCtorEq, false_iff, not_or, not_lt]; exact h
   · rename_i h; simp only [true_iff]; by_contra hc; exact h ⟨by linarith [not_or.mp hc |>.1 |> not_lt.mp], by linarith [not_or.mp hc |>.2 |> not_lt.mp]⟩
 
-/-- the two scale literals of the source are inverse to each other within 10⁻¹⁵
-(the driver compares the factors observed through the `From` impls with these literals and with ∓10/ln 10) -/
+/-- **source-extracted obligation** (DESIGN §8): the two scale literals of `src/stats/probs/mod.rs`, extracted from the
+source text on *this* run (`RbV/Gen/Scales.lean`; exact rational values of the decimal literals), are inverse to each
+other within 10⁻¹⁵ (the driver compares the factors observed through the `From` impls with the `f64` of the same
+extracted literals and with ∓10/ln 10) -/
 theorem phred_factors_inverse : |LOG_TO_PHRED_FACTOR * PHRED_TO_LOG_FACTOR - 1| < 1 / 10 ^ 15 := by
-  unfold LOG_TO_PHRED_FACTOR PHRED_TO_LOG_FACTOR
+  unfold LOG_TO_PHRED_FACTOR PHRED_TO_LOG_FACTOR decQ Gen.Scales.logToPhred Gen.Scales.phredToLog
   rw [abs_lt]; constructor <;> norm_num
+
+/-- … and each is within 10⁻¹⁵ resp. 10⁻¹⁶ of the exact factor `−10/ln 10` resp. `−ln 10/10` — **given** the enclosure
+`2.30258509299404568 < ln 10 < 2.30258509299404569` (true: ln 10 = 2.302585092994045684…, but not proved here;
+Mathlib has no 18-digit bound on `log 10`), hence the `_given_ln10_enclosure` in the name -/
+theorem phred_factors_near_exact_given_ln10_enclosure
+    (hlo : (2.30258509299404568 : ℝ) < log 10) (hhi : log 10 < (2.30258509299404569 : ℝ)) :
+    |(LOG_TO_PHRED_FACTOR : ℝ) - (-10 / log 10)| < 1 / 10 ^ 15 ∧
+    |(PHRED_TO_LOG_FACTOR : ℝ) - (-(log 10 / 10))| < 1 / 10 ^ 16 := by
+  have hpos : (0 : ℝ) < log 10 := by linarith
+  have h1 : (10 : ℝ) / log 10 < 10 / 2.30258509299404568 :=
+    div_lt_div_of_pos_left (by norm_num) (by norm_num) hlo
+  have h2 : (10 : ℝ) / 2.30258509299404569 < 10 / log 10 :=
+    div_lt_div_of_pos_left (by norm_num) hpos hhi
+  -- rational facts about the extracted literals (the only place their values enter; no value is pinned)
+  have hL : (LOG_TO_PHRED_FACTOR : ℝ) = (Gen.Scales.logToPhred.mant : ℝ) / 10 ^ Gen.Scales.logToPhred.scale := by
+    unfold LOG_TO_PHRED_FACTOR decQ; push_cast; rfl
+  have hP : (PHRED_TO_LOG_FACTOR : ℝ) = (Gen.Scales.phredToLog.mant : ℝ) / 10 ^ Gen.Scales.phredToLog.scale := by
+    unfold PHRED_TO_LOG_FACTOR decQ; push_cast; rfl
+  have h3 : (LOG_TO_PHRED_FACTOR : ℝ) + 10 / 2.30258509299404568 < 1 / 10 ^ 15 := by
+    rw [hL]; unfold Gen.Scales.logToPhred; norm_num
+  have h4 : -(1 / 10 ^ 15 : ℝ) < (LOG_TO_PHRED_FACTOR : ℝ) + 10 / 2.30258509299404569 := by
+    rw [hL]; unfold Gen.Scales.logToPhred; norm_num
+  have h5 : (PHRED_TO_LOG_FACTOR : ℝ) + 2.30258509299404569 / 10 < 1 / 10 ^ 16 := by
+    rw [hP]; unfold Gen.Scales.phredToLog; norm_num
+  have h6 : -(1 / 10 ^ 16 : ℝ) < (PHRED_TO_LOG_FACTOR : ℝ) + 2.30258509299404568 / 10 := by
+    rw [hP]; unfold Gen.Scales.phredToLog; norm_num
+  constructor
+  · rw [abs_lt, neg_div]; constructor <;> linarith
+  · rw [abs_lt]; constructor <;> linarith
 
 /-- Prob → PHRED → Prob is exact over the reals (`-10·log₁₀ p` written as `-10·(ln p / ln 10)`, `10^y` as `e^{y·ln 10}`) -/
 theorem prob_phred_roundtrip (p : ℝ) (hp : 0 < p) : exp (-(-10 * (log p / log 10)) / 10 * log 10) = p := by
@@ -187,17 +219,66 @@ theorem fastexp_reduction (P : ℝ → ℝ) (δ : ℝ)
     ApproxExp (fastexpModel P) δ :=
   fastexpModel_approx P δ hP
 
-/-- the source's polynomial is exact at both ends of the interval up to 5·10⁻⁶: `P(0) = 1 = 2⁰`, `|P(-1) − 2⁻¹| < 5·10⁻⁶` -/
+/-- **source-extracted obligation**: the polynomial with the coefficients `COEFF_0 … COEFF_4` extracted from
+`src/utils/fastexp.rs` on this run is exact at both ends of the interval up to 5·10⁻⁶:
+`P(0) = COEFF_0 = 1 = 2⁰`, `|P(-1) − 2⁻¹| < 5·10⁻⁶` -/
 theorem fastexp_poly_endpoints :
-    fastexpPoly 4.831794110 0.143440676 0.019890581 0.006935931 0 = 1 ∧
-    |fastexpPoly 4.831794110 0.143440676 0.019890581 0.006935931 (-1) - 1 / 2| < 5 / 10 ^ 6 := by
-  unfold fastexpPoly
-  refine ⟨by norm_num, ?_⟩
-  rw [abs_lt]; constructor <;> norm_num
+    fastexpPolyGen 0 = 1 ∧ |fastexpPolyGen (-1) - 1 / 2| < 5 / 10 ^ 6 := by
+  have e0 := fastexpPolyGen_cast 0
+  have e1 := fastexpPolyGen_cast (-1)
+  push_cast at e0 e1
+  rw [e0, e1]
+  have q0 : fastexpPolyGenQ 0 = 1 := by
+    unfold fastexpPolyGenQ decQ Gen.Scales.coeff0 Gen.Scales.coeff1 Gen.Scales.coeff2 Gen.Scales.coeff3 Gen.Scales.coeff4
+    norm_num
+  have q1 : |fastexpPolyGenQ (-1) - 1 / 2| < 5 / 10 ^ 6 := by
+    unfold fastexpPolyGenQ decQ Gen.Scales.coeff0 Gen.Scales.coeff1 Gen.Scales.coeff2 Gen.Scales.coeff3 Gen.Scales.coeff4
+    rw [abs_lt]; constructor <;> norm_num
+  refine ⟨by rw [q0]; norm_num, ?_⟩
+  have : |((fastexpPolyGenQ (-1) : ℚ) : ℝ) - 1 / 2| = ((|fastexpPolyGenQ (-1) - 1 / 2| : ℚ) : ℝ) := by push_cast; rfl
+  rw [this]
+  have h := (Rat.cast_lt (K := ℝ)).mpr q1
+  push_cast at h ⊢
+  exact h
+
+/-- the generated polynomial is the `fastexpPoly` of the reduction theorem above (`COEFF_0` is 1) -/
+theorem fastexp_poly_is_model_poly (y : ℝ) :
+    fastexpPolyGen y = fastexpPoly (decR Gen.Scales.coeff1) (decR Gen.Scales.coeff2) (decR Gen.Scales.coeff3)
+      (decR Gen.Scales.coeff4) y :=
+  fastexpPolyGen_eq (by unfold decQ Gen.Scales.coeff0; norm_num) y
+
+/-- **source-extracted obligation**: the bit trick stays inside the normal `f64` range on the whole domain on which
+it is used.  For `MIN_VAL < x ≤ 0` (the guard `if *self > MIN_VAL`; log-probabilities are ≤ 0) the integer
+`bits = (ONEBYLOG2 · x) as i64` (truncation towards zero = ceiling for non-positive arguments) satisfies
+`1 ≤ bits + OFFSET_F64 ≤ 2046`, so `(bits + OFFSET_F64) << FRACTION_F64` is the bit pattern of the normal number
+`2^bits` (exponent field neither 0 = zero/subnormal nor 2047 = inf/NaN); `OFFSET_F64`/`FRACTION_F64` are the IEEE-754
+double bias and fraction width. -/
+theorem fastexp_exponent_field_in_range (x : ℝ) (hlo : decR Gen.Scales.minVal < x) (hhi : x ≤ 0) :
+    1 ≤ ⌈decR Gen.Scales.oneByLog2 * x⌉ + Gen.Scales.offsetF64 ∧
+      ⌈decR Gen.Scales.oneByLog2 * x⌉ + Gen.Scales.offsetF64 ≤ 2046 ∧
+      Gen.Scales.fractionF64 = 52 ∧ Gen.Scales.offsetF64 = 2 ^ (62 - Gen.Scales.fractionF64) - 1 := by
+  -- the only facts about the extracted values that are used (the proof survives any retuning within them):
+  -- MIN_VAL ≥ −708, 0 < ONEBYLOG2 ≤ 1.4427 (then ONEBYLOG2·x > −1021.5), OFFSET_F64 = 1023
+  have hm : (-708 : ℝ) ≤ decR Gen.Scales.minVal := by rw [decR_eq]; unfold Gen.Scales.minVal; norm_num
+  have hc0 : (0 : ℝ) < decR Gen.Scales.oneByLog2 := by rw [decR_eq]; unfold Gen.Scales.oneByLog2; norm_num
+  have hc1 : decR Gen.Scales.oneByLog2 ≤ 1.4427 := by rw [decR_eq]; unfold Gen.Scales.oneByLog2; norm_num
+  have ho : Gen.Scales.offsetF64 = 1023 := by decide
+  rw [ho]
+  have hx : (-708 : ℝ) < x := lt_of_le_of_lt hm hlo
+  have h1 : (-1022 : ℝ) < decR Gen.Scales.oneByLog2 * x := by nlinarith
+  have h2 : decR Gen.Scales.oneByLog2 * x ≤ 0 := mul_nonpos_of_nonneg_of_nonpos hc0.le hhi
+  have c1 : (-1022 : ℤ) < ⌈decR Gen.Scales.oneByLog2 * x⌉ := by
+    rw [Int.lt_ceil]; push_cast; exact h1
+  have c2 : ⌈decR Gen.Scales.oneByLog2 * x⌉ ≤ 0 := by
+    rw [Int.ceil_le]; push_cast; exact h2
+  refine ⟨by omega, by omega, by decide, by decide⟩
 
 /-! ### non-vacuity -/
 
 example : ApproxExp exp 0 := approxExp_exp
+/-- hypotheses of `fastexp_exponent_field_in_range` are satisfiable (x = −499.5, just above the extracted `MIN_VAL`) -/
+example : decR Gen.Scales.minVal < (-499.5 : ℝ) ∧ (-499.5 : ℝ) ≤ 0 := by
+  rw [decR_eq]; unfold Gen.Scales.minVal; constructor <;> norm_num
 /-- a (crude) approximate exponential satisfying the hypothesis with δ = 0.004 -/
 example : ApproxExp (fun x => 1.004 * exp x) 0.004 := by
   intro x _
